@@ -105,10 +105,9 @@ class MetConfig:
     @property
     def n_timesteps(self) -> int:
         """Number of timesteps in the timeseries."""
-        if isinstance(self.ustar, list):
-            return len(self.ustar)
-        if isinstance(self.wind_speed, list):
-            return len(self.wind_speed)
+        for val in (self.ustar, self.mol, self.wind_speed, self.wind_dir):
+            if isinstance(val, list):
+                return len(val)
         return 1
 
     def get_step(self, i: int) -> dict:
